@@ -25,7 +25,7 @@ add('C02', 'model_checking',
     'All interleavings of 2 setters (types "", null, a, b), 1-2 getters, Open/Close and ForceClose are explored by TLC (type set once, first wins, * only after all writers closed, getter returns); every reachable state is reproduced on the real pipe under the forced schedule and GetDataType results compared.',
     'same hooks as C01; the lock-free read in the cancelled branch of GetDataType is modelled as reading the value before or after a concurrent set', 'DESIGN §6 C02')
 add('C26', 'model_checking',
-    'TLA+ spec NamedPipes.tla (registry + asynchronous close timers) model-checked by TLC (safety+liveness); state-graph paths replayed on a real pipes.Named with client goroutines and the real close-timer goroutines scheduled through gate hooks',
+    'TLA+ spec NamedPipes.tla (registry + asynchronous close timers) model-checked by TLC (safety+liveness); state-graph paths replayed on a real pipes.Named with client goroutines and the real close-timer goroutines scheduled through gate hooks; recorded concurrent executions validated against NamedPipesTrace.tla; ungated look-up storm',
     'TLC explores every interleaving of create/close/delete/get/dump by 2 clients over 2 names with up to 2 pending close timers (no crash, unique live names, stream never closed twice, closed pipe eventually gone, Get returns); every reachable state is then reproduced on the real registry: each step is one lock region of the real code, the real 2 s timers are held at a gate and fired where the behaviour says, and error results, Get results and the registry contents are compared after every step. A nil dereference or fatal map error kills the harness process and is attributed to the behaviour that caused it by re-running it alone.',
     'gate hooks at every lock region of lang/pipes/namedpipes.go and after the timer sleep; std pipes only', 'DESIGN §6 C26')
 add('C27', 'model_checking',
@@ -41,9 +41,9 @@ add('C05', 'model_checking',
     'All blocks of <=4 (thorough <=5) commands x {try, trypipe} are enumerated by TLC with the invariant operational = declarative; each is run as a `try`/`trypipe` block and as a function with a `runmode` directive; commands that ran and the exit number must equal the table.',
     'as C04; tryerr variants excluded (not in the property)', 'DESIGN §6 C05')
 add('C03', 'model_checking',
-    'TLA+ spec Pipeline.tla: TLC explores all interleavings of the stage processes of every pipeline in the bound (termination under fairness, no deadlock, output = Seq(P)); the exported program table is executed many times under seeded schedule perturbation at the hook points and every run compared with Seq(P)',
+    'TLA+ spec Pipeline.tla: TLC explores all interleavings of the stage processes of every pipeline in the bound (termination under fairness, no deadlock, output = Seq(P)); the exported program table is executed many times under seeded schedule perturbation at the hook points and every run compared with Seq(P); Lifecycle.tla (scheduler/process/waiter goroutines) model-checked and bound by gate logs validated against LifecycleTrace.tla; StreamUse.tla validated on the pipes\' own open/close/append logs of whole programs',
     'The concurrent model (one process per stage, bounded channels, back-pressure, EOF after close, aggregating stages) is checked exhaustively against the sequential meaning for every pipeline of <=3 stages; the same programs (plus the C04/C05 chain programs) run 6 (thorough 40) times each on the real interpreter with random yields/sleeps injected at every process life-cycle step and pipe lock region; any run whose stdout, stderr or exit number differs from the TLC value, or that hangs, is a violation.',
-    'perturbation explores schedules randomly, not exhaustively, on the real code; vocabulary limited to a/foreach/out/err/mtac/functions and the chain operators', 'DESIGN §6 C03')
+    'perturbation explores schedules randomly, not exhaustively, on the real code; vocabulary limited to a/foreach/out/err/mtac/cast/if/switch/variables/functions, try and trypipe blocks inside stages, and the chain operators', 'DESIGN §6 C03')
 add('C28', 'model_checking',
     'RunModes.tla invariant Released (every process registered by compile is released exactly once in every scheduler branch) checked by TLC; FID register/deregister event logs recorded under the real table mutex while programs run concurrently are validated by TLC against FidTrace.tla (FidUnique, QuietEmpty)',
     'TLC proves the release accounting of the three schedulers for all blocks <=4 commands; the real interpreter then runs thousands of those blocks plus structured programs (failing casts, break/continue/return, nested functions, aborted try) 8 at a time per process under schedule perturbation; each process logs FID events in mutex order and TLC checks on the log that no FID is handed out twice and that nothing rooted in a finished program is still registered.',
@@ -57,9 +57,9 @@ add('C21', 'exploration',
     'Exit codes (15 spread values; thorough 0-255) and signals 1-15 of a helper process x {alone, && marker, || marker, try{...; marker}}: exit number and marker execution must equal the TLC table. The helper\'s real wait status is verified independently before a row is judged.',
     'rows whose helper does not die the intended way on this kernel are discarded', 'DESIGN §6 C21')
 add('C39', 'exploration',
-    'TLA+ spec Control.tla: structured meaning with completion records evaluated by TLC for a family of nested foreach/if/function programs with break/continue/return, exported as a table; every program run by the real interpreter and compared',
-    '132 programs (outer loop x optional inner loop x control statement kind and position in each) x 2 call contexts: printed tags and function exit number must equal the structured meaning computed by TLC.',
-    'foreach loops over JSON literals; block names foreach/if/function name; while/switch not covered', 'DESIGN §6 C39')
+    'TLA+ spec Control.tla: structured meaning with completion records evaluated by TLC for three program families (nested foreach/while/for loops with break/continue/return aimed at any enclosing block by name; a function called from a loop that ends itself; a block ended from one stage of a pipeline while the producer stage is still running), exported as a table; every program run by the real interpreter and compared',
+    'About 3900 nest programs (outer loop kind x optional inner loop kind x control statement kind and position in each x loop last or followed) + 162 call programs + 20 stage programs, x 2 call contexts: printed tags and function exit number (after return n or a normal end) must equal the structured meaning computed by TLC; stage family: the number of items the producer stage started must lie in the range the meaning gives.',
+    'loops over 1..3 / 1..2; block names foreach/while/for/if/function name; the exit number of a function whose last statement is a loop left by break is not judged; stage family depends on timing (1 s per item, re-run alone at 3 s per item before a disagreement counts)', 'DESIGN §6 C39')
 add('C22', 'exploration',
     'TLA+ spec Resolve.tla: resolution order with single alias expansion evaluated by TLC over all definition subsets and alias targets, exported as a table; each row set up and run in the real interpreter',
     'All 176 relevant combinations of {private, alias, function, builtin, external} x alias target {builtin, itself, another name} x definitions of the other name are enumerated by TLC; the definition that actually answers in murex (including self-referential aliases and alias-to-alias, which must not loop) is compared with the table.',
@@ -145,11 +145,11 @@ add('C34', 'exploration',
     'All lines of 2 segments over the full syntax and 3 segments over a reduced one (thorough: wider); violation = must-not-run, confirmed by ParseBlock, and Unsafe=false; over-caution is not judged.',
     'the tokeniser is not transcribed (exploration); command words confirmed against parser.GetSafeCmds() of the tree under test', 'DESIGN §6 C34')
 add('C19', 'exploration',
-    'TLA+ spec Robust.tla enumerates the adversarial input space (builtin from the real registry x 0-2 arguments of 16 hostile shapes x 8 stdin shapes) and states the outcome rule (ok | error with exit != 0; panic/crash/hang forbidden); a seeded sample (thorough: the whole table) plus hand-written error-path programs run in child processes with per-program deadlines, a subset through the real `murex -c` binary',
+    'TLA+ spec Robust.tla enumerates the adversarial input space (builtin from the real registry x 0-2 arguments of 29 hostile shapes x 13 stdin shapes; index family: [ ![ [[ x one or two of 19 row/column/key selectors x 7 tabular stdin shapes, always run completely) and states the outcome rule (ok | error with exit != 0; panic/crash/hang forbidden); a seeded sample (thorough: the whole table) plus hand-written error-path programs run in child processes with per-program deadlines, a subset through the real `murex -c` binary',
     'About 38k table rows (quick: 1500 sampled by VERIF_SEED; the whole table has been run once and triaged) and 40 error-path programs (named-pipe misuse with the real 2 s timers, malformed signatures, bad casts, bad block names, out-of-range indexes, unbalanced quotes, bad flag tables); outcome classification from stderr markers (`panic caught`, `Murex has crashed`), process death and missed deadlines; a missed deadline is believed only after the program, run alone, misses a 4x deadline twice more.',
     'specification-derived adversarial generation, not fuzzing of all programs; deny-listed builtins (exit, kill/signal, exec, network, interactive readers, persistent hooks, never-ending loops, definitions that change later rows) are not in the table', 'DESIGN §6 C19')
 add('C32', 'exploration',
-    'Go race detector on the real code (harness built with -race) under workloads supplied by the specifications: the concurrent pipe drivers of Stream.tla, concurrent registry operations of NamedPipes.tla with the real timers, and the program tables of RunModes.tla / Pipeline.tla plus structured programs run 4 at a time under schedule perturbation; every distinct race report (keyed by its two access sites) is a finding',
+    'Go race detector on the real code (harness built with -race) under workloads supplied by the specifications: the concurrent pipe drivers of Stream.tla, concurrent registry operations of NamedPipes.tla with the real timers, and the program tables of RunModes.tla / Pipeline.tla plus structured programs and shared-table stress programs (three pipeline stages of one function scope reading and writing the same table) run 4 at a time under schedule perturbation; every distinct race report (keyed by its two access sites) is a finding',
     'The oracle is the race detector, not TLC; the models contribute the workloads and the list of action pairs that can be enabled concurrently (model_coenabled_pairs in the evidence). Races on state no specification drives are only reached through the murex programs.',
     'reports races that happen in the driven executions, not all possible ones', 'DESIGN §6 C32')
 
